@@ -12,6 +12,7 @@ spec of a value:
 module spec: [[key, valuespec], ...]
 """
 import datetime as dtm
+import functools
 
 from hypothesis import strategies as st
 
@@ -45,6 +46,7 @@ def charset(dialect):
     return ASCII_CHARS if dialect in ODL_FAMILY else PVL_CHARS
 
 
+@functools.lru_cache(maxsize=None)
 def strings(dialect):
     cs = charset(dialect)
     ok = lambda s: all(c in cs for c in s)
@@ -67,15 +69,17 @@ IDENT_HEAD = "abcXYZ"
 IDENT_BODY = "abXY019_"
 
 
+@functools.lru_cache(maxsize=None)
 def identifiers(max_len=12):
     return st.builds(
-        lambda h, b, t: h + b + t,
+        lambda h, b, t: (h + b + t).rstrip("_"),
         st.sampled_from(IDENT_HEAD),
         st.text(alphabet=IDENT_BODY, max_size=max_len - 2),
         st.sampled_from(["", "a", "Z", "9"]),
     )
 
 
+@functools.lru_cache(maxsize=None)
 def names(dialect):
     base = identifiers()
     opts = [base, base, st.sampled_from(["a", "b", "key", "Key", "KEY"]),
@@ -87,16 +91,19 @@ def names(dialect):
     return st.one_of(*opts)
 
 
+@functools.lru_cache(maxsize=None)
 def block_names():
     return st.one_of(identifiers(), st.sampled_from(["g", "obj", "Image", "IMAGE"]))
 
 
+@functools.lru_cache(maxsize=None)
 def ints():
     return st.one_of(st.integers(-1000, 1000), st.sampled_from(
         [0, 1, -1, 2 ** 31, -2 ** 63, 2 ** 64, 10 ** 40, -10 ** 25]),
         st.integers(-10 ** 20, 10 ** 20))
 
 
+@functools.lru_cache(maxsize=None)
 def floats():
     return st.one_of(
         st.floats(allow_nan=False, allow_infinity=False),
@@ -109,26 +116,31 @@ def floats():
 TZ_MINUTES = [None, 0, 60, -60, 330, -210, 720, -720, 45, -15 * 60 - 0, 570]
 
 
+@functools.lru_cache(maxsize=None)
 def tzs():
     return st.sampled_from(TZ_MINUTES)
 
 
+@functools.lru_cache(maxsize=None)
 def micro():
     return st.sampled_from([0, 0, 500000, 4000, 123000, 1000, 999000, 1, 123456,
                             999999, 100])
 
 
+@functools.lru_cache(maxsize=None)
 def dates():
     return st.dates(min_value=dtm.date(1, 1, 1), max_value=dtm.date(9999, 12, 31)).map(
         lambda d: {"date": [d.year, d.month, d.day]})
 
 
+@functools.lru_cache(maxsize=None)
 def times():
     return st.builds(lambda h, m, s, us, tz: {"time": [h, m, s, us, tz]},
                      st.integers(0, 23), st.integers(0, 59),
                      st.sampled_from([0, 0, 1, 30, 59]), micro(), tzs())
 
 
+@functools.lru_cache(maxsize=None)
 def datetimes():
     return st.builds(
         lambda d, t: {"dt": d["date"] + t["time"]},
@@ -144,18 +156,21 @@ PVL_UNITS = ODL_UNITS + ["m s", "km per s", "%", "a.b", "deg C", "1/s", "µm",
                          "m^2", "'", "it's", "a=b", "(", "#"]
 
 
+@functools.lru_cache(maxsize=None)
 def units(dialect):
     if dialect in ODL_FAMILY:
         return st.sampled_from(ODL_UNITS + ["m s", "bad unit!", "3m", "m**x"])
     return st.sampled_from(PVL_UNITS)
 
 
+@functools.lru_cache(maxsize=None)
 def scalars(dialect):
     return st.one_of(
         st.none(), st.booleans(), ints(), floats(), strings(dialect),
         strings(dialect), dates(), times(), datetimes())
 
 
+@functools.lru_cache(maxsize=None)
 def quantities(dialect, inner):
     num = st.one_of(ints(), floats())
     if dialect in ODL_FAMILY:
@@ -176,6 +191,7 @@ def hashable_spec(v):
     return True
 
 
+@functools.lru_cache(maxsize=None)
 def values(dialect):
     sc = scalars(dialect)
 
@@ -191,6 +207,7 @@ def values(dialect):
     return st.one_of(st.recursive(base, extend, max_leaves=10), longseq)
 
 
+@functools.lru_cache(maxsize=None)
 def module_items(dialect, depth=0):
     key = names(dialect)
     val = values(dialect)
@@ -222,11 +239,13 @@ def module_items(dialect, depth=0):
     return with_dups()
 
 
+@functools.lru_cache(maxsize=None)
 def blocks(dialect, depth):
     return st.tuples(st.sampled_from(["grp", "grp", "obj"]),
                      module_items(dialect, depth)).map(lambda t: {t[0]: t[1]})
 
 
+@functools.lru_cache(maxsize=None)
 def modules(dialect):
     return module_items(dialect, 0)
 
